@@ -180,7 +180,9 @@ func runProperty(p *an.Prog, id, tier, goarch, outDir string, findings []an.Find
 				rc = 2
 			}
 		}()
+		p.Anchors = nil
 		props.Registry[id](ctx)
+		props.GenericRules(ctx)
 	}()
 	if rc != 0 {
 		return rc
